@@ -14,7 +14,7 @@ META = {
              'is a boundary value of its domain or belongs to a rejection class'),
     'required_obs': {'quick': ['code-' + c for c in CODES] + ['uvari-width-1', 'uvari-width-2', 'uvari-width-4',
                                'rejected-out-of-range', 'rejected-non-ascii', 'rejected-too-long', 'cache-collision-pair',
-                               'e2e-contract-evals', 'obname-copy>0', 'obname-origin-2byte']},
+                               'e2e-contract-evals', 'obname-copy>0', 'obname-origin-2byte', 'obname-after-identity-change']},
     'exhaustive_windows': {'quick': ['UVARI: every value 0..20000 and 2^30-3..2^30+3', 'USHORT/SSHORT: whole domain +-2',
                                      'IDENT lengths 0..260', 'STATUS -2..3'],
                            'thorough': ['UVARI: every value 0..70000', 'UNORM/SNORM whole domain +-2', 'IDENT/ASCII lengths 0..300']},
@@ -248,6 +248,25 @@ def run_case(case):
                 elif got[0] == 'ok' and got[1] != exp:
                     vio.append({'prop': PROP, 'kind': 'encoding-mismatch', 'mech': f'mismatch:{code_name}:{cls}',
                                 'detail': f'({orf},{cp},{nm!r:.20}): expected {exp[:16].hex()}, emitted {got[1][:16].hex()}'})
+        # history: the same items are renamed / moved to another origin and encoded again -- the bytes must follow
+        for it in items[:12]:
+            new_name = 'RENAMED-' + it.name[:20]
+            new_org = r.choice([2, 130, 16385])
+            it.name = new_name
+            it.origin_reference = new_org
+            for code_name in ('OBNAME', 'OBJREF'):
+                evals[0] += 1
+                bump('code-' + code_name)
+                bump('obname-after-identity-change')
+                exp = rp66.enc_obname(new_org, it.copy_number, new_name)
+                if code_name == 'OBJREF':
+                    exp = rp66.enc_ident('ZONE') + exp
+                got = real(code_name, it)
+                sigs.add(f'{code_name}:after-identity-change')
+                if got[0] == 'ok' and got[1] != exp:
+                    vio.append({'prop': PROP, 'kind': 'encoding-mismatch', 'mech': f'mismatch:{code_name}:after-identity-change',
+                                'detail': f'item renamed to {new_name!r} / origin {new_org} after a first encoding: expected '
+                                          f'{exp[:16].hex()}, emitted {got[1][:16].hex()}'})
     elif k == 'history':
         r = gen.rng(seed, PROP, case['stratum'], case['index'])
         pool = []
